@@ -60,7 +60,7 @@ def run(tier):
     def has(pe, kinds):
         return any(x["e"] == "momentum" and x["found"] in kinds for x in pe)
     nosync_runs = [r for r in runs if has(r[1], ("nosync",))]
-    bad_runs = [r for r in runs if has(r[1], ("scaled", "rescaled", "partial", "no"))]
+    bad_runs = [r for r in runs if has(r[1], ("scaled", "rescaled", "affine", "partial", "no"))]
     if nosync_runs and not bad_runs:
         # no 32-byte seed handed to new_chain reproduces the first momentum, not even up to scale: the harness cannot tell
         # where the chain's stream is (a re-seeding refactor, or a momentum that is not a function of the stream at all)
@@ -87,7 +87,7 @@ def run(tier):
                 key = "momentum_not_redrawn"
             elif not ev.get("ke_ok"):
                 key = "kinetic_energy_not_half_v2"
-            elif ev.get("found") in ("scaled", "rescaled"):
+            elif ev.get("found") in ("scaled", "rescaled", "affine"):
                 key = "velocity_is_a_rescaled_standard_normal_sample"
             elif ev.get("found") == "partial":
                 key = "only_part_of_the_momentum_was_redrawn"
